@@ -147,6 +147,11 @@ def space(tier, seed):
             positions = ["assign", "decoy-names", "decoy-texts", "decoy-recipes"]
         for position, optin, cmd in itertools.product(positions, OPTINS, CMDS):
             allc.append({"construct": construct, "position": position, "optin": optin, "cmd": cmd})
+            if cmd[0] == "run":
+                # another way of loading the same justfile: found through `set fallback` from a subdirectory whose own
+                # justfile lacks the recipe (with and without `set unstable` there, which must not count for the parent)
+                for via in ("fallback", "fallback-child-unstable"):
+                    allc.append({"construct": construct, "position": position, "optin": optin, "cmd": cmd, "via": via})
     total = len(allc)
     if tier == "quick":
         rng = C.case_rng(seed, 0, "c19")
@@ -164,12 +169,21 @@ def run_case(case):
         env = dict(C.BASE_ENV)
         env.update({"HOME": d, "TMPDIR": d, "VSH_LOG": logp})
         env.update(env_extra)
-        p = subprocess.run([C.JUST] + argv, cwd=d, env=env, stdin=subprocess.DEVNULL, stdout=subprocess.PIPE,
+        cwd = d
+        via = case.get("via", "direct")
+        if via != "direct":
+            cwd = os.path.join(d, "child")
+            os.makedirs(cwd)
+            child = 'set shell := ["%s", "-c"]\nset fallback\n%s\nother:\n  [O]\n' % (
+                C.VSH, "set unstable\n" if via == "fallback-child-unstable" else "")
+            open(os.path.join(cwd, "justfile"), "w").write(child)
+            files = dict(files, **{"child/justfile": child})
+        p = subprocess.run([C.JUST] + argv, cwd=cwd, env=env, stdin=subprocess.DEVNULL, stdout=subprocess.PIPE,
                            stderr=subprocess.PIPE)
         stderr = p.stderr.decode("utf-8", "replace")
         spawned = len(C.read_vsh_log(logp))
         return {"rc": p.returncode, "refused": "currently unstable" in stderr, "spawned": spawned, "stderr": stderr[-300:],
-                "files": files, "model": model, "argv": argv, "env": env_extra, "info": info}
+                "files": files, "model": model, "argv": argv, "env": env_extra, "info": info, "cwd": os.path.relpath(cwd, d)}
 
 
 def doc_truthy(v):
@@ -189,7 +203,7 @@ def run(report):
         reqs.append({"op": "unstable", "root": r["model"], "flag": c["optin"][0] == "flag",
                      "env": c["optin"][1] if c["optin"][0] == "env" else None, "cmd": cmd})
     model = drv.pbatch(reqs, chunk=3000)
-    stats = {"cases": len(cases), "space": total, "refused": 0, "proceeded": 0, "by_construct": {}, "env_values": {}}
+    stats = {"cases": len(cases), "space": total, "refused": 0, "proceeded": 0, "by_construct": {}, "env_values": {}, "via": {}}
     distinct = set()
     samples = []
     for c, r, m in zip(cases, results, model):
@@ -199,6 +213,7 @@ def run(report):
         optkind, envval = c["optin"]
         cmdname = c["cmd"][0]
         stats["by_construct"][c["construct"]] = stats["by_construct"].get(c["construct"], 0) + 1
+        stats["via"][c.get("via", "direct")] = stats["via"].get(c.get("via", "direct"), 0) + 1
         if optkind == "env":
             stats["env_values"][envval] = stats["env_values"].get(envval, 0) + 1
         # the statement, directly
@@ -208,9 +223,10 @@ def run(report):
         if cmdname == "fmt" and not (glob or info["set_root"]):
             want_refused = True
         stats["refused" if r["refused"] else "proceeded"] += 1
-        distinct.add(json.dumps([c["construct"], c["position"], c["optin"], cmdname, r["refused"]]))
-        replay = {"case": {"construct": c["construct"], "position": c["position"], "optin": list(c["optin"]), "cmd": list(c["cmd"])},
-                  "files": r["files"], "argv": r["argv"], "env": r["env"],
+        distinct.add(json.dumps([c["construct"], c["position"], c["optin"], cmdname, c.get("via", "direct"), r["refused"]]))
+        replay = {"case": {"construct": c["construct"], "position": c["position"], "optin": list(c["optin"]), "cmd": list(c["cmd"]),
+                           "via": c.get("via", "direct")},
+                  "files": r["files"], "argv": r["argv"], "env": r["env"], "cwd": r["cwd"],
                   "observed": {"refused": r["refused"], "rc": r["rc"], "spawned": r["spawned"], "stderr": r["stderr"]},
                   "expected_refused": want_refused}
         if r["refused"] and r["spawned"]:
@@ -237,7 +253,7 @@ def run(report):
     report.coverage.update({
         "evaluations": len(cases),
         "distinct_nontrivial": len(distinct),
-        "rule": "constructs {&&, ||, which(), [script], script-interpreter, none} x positions {assignment, parameter default, dependency argument, interpolation, function argument, condition side, branch, assert message, parentheses, path-join operand, imported file, submodule} x opt-ins {none, --unstable, set unstable in root, set unstable in the using module, JUST_UNSTABLE in 13 values} x 10 subcommands; %s; distinct = distinct (construct, position, opt-in, subcommand, outcome)" % ("complete" if tier == "thorough" else "random sample, space size in stats"),
+        "rule": "constructs {&&, ||, which(), [script], script-interpreter, none} x positions {assignment, parameter default, dependency argument, interpolation, function argument, condition side, branch, assert message, parentheses, path-join operand, imported file, submodule} x opt-ins {none, --unstable, set unstable in root, set unstable in the using module, JUST_UNSTABLE in 13 values} x 10 subcommands, and for runs x {loaded directly, found through `set fallback` from a subdirectory, the same with `set unstable` in the subdirectory's justfile}; %s; distinct = distinct (construct, position, opt-in, subcommand, outcome)" % ("complete" if tier == "thorough" else "random sample, space size in stats"),
         "samples": samples,
         "exhaustive": tier == "thorough",
         "traces_validated_against_impl": len(cases),
@@ -254,7 +270,8 @@ def replay(report, path):
     body = json.load(open(path))
     C.build_just()
     c = body["replay"]["case"]
-    r = run_case({"construct": c["construct"], "position": c["position"], "optin": tuple(c["optin"]), "cmd": tuple(c["cmd"])})
+    r = run_case({"construct": c["construct"], "position": c["position"], "optin": tuple(c["optin"]), "cmd": tuple(c["cmd"]),
+                  "via": c.get("via", "direct")})
     print(json.dumps({"refused": r["refused"], "rc": r["rc"], "expected_refused": body["replay"]["expected_refused"]}, indent=1))
     report.coverage.update({"obligations": 1, "discharged": 1, "checker_cmd": "replay", "trusted_base": []})
     if r["refused"] != body["replay"]["expected_refused"]:
